@@ -34,11 +34,9 @@ def contentEnd (remaining : Text) : Nat × Bool :=
       match findSub ['\n', '-', '\n'] remaining with
       | some p => (p, true)
       | none =>
-        match findSub ['\n', '-'] remaining with
-        | some p =>
-          if p + 2 ≥ remaining.length || (remaining.drop (p + 2)).head? == some '}' then (p, true)
-          else (remaining.length, false)
-        | none =>
+        -- `remaining.strip_suffix("\n-")`: the text ends with the simple block end
+        if 2 ≤ remaining.length && remaining.drop (remaining.length - 2) == ['\n', '-'] then (remaining.length - 2, true)
+        else
           match findSub ['-', '}'] remaining with
           | some p => (p, false)
           | none => (remaining.length, false)
